@@ -547,9 +547,11 @@ func (f *followingQuery) Select(t iterator) NodeNavigator {
 								Input:     &contextQuery{},
 								Predicate: f.Predicate,
 							}
-							t.Current().MoveTo(node)
 						}
-						if node := q.Select(t); node != nil {
+						// q walks the subtree of node: node, not the shared
+						// context cursor, is its context.
+						sub := iteratorFunc(func() NodeNavigator { return node })
+						if node := q.Select(sub); node != nil {
 							f.posit = q.posit
 							return node
 						}
@@ -638,9 +640,11 @@ func (p *precedingQuery) Select(t iterator) NodeNavigator {
 								Input:     &contextQuery{},
 								Predicate: p.Predicate,
 							}
-							t.Current().MoveTo(node)
 						}
-						if node := q.Select(t); node != nil {
+						// q walks the subtree of node: node, not the shared
+						// context cursor, is its context.
+						sub := iteratorFunc(func() NodeNavigator { return node })
+						if node := q.Select(sub); node != nil {
 							p.posit++
 							return node
 						}
